@@ -1,13 +1,13 @@
 package repository
 
 import (
-	"fmt"
 	"os"
 	"strings"
 	"sync"
 	"unicode/utf8"
 
 	"github.com/blevesearch/bleve"
+	blevequery "github.com/blevesearch/bleve/search/query"
 )
 
 var _ Index = &bleveIndex{}
@@ -111,16 +111,17 @@ func (b *bleveIndex) Search(terms []string) ([]string, error) {
 	b.mu.RLock()
 	defer b.mu.RUnlock()
 
-	// quote into a copy: the slice belongs to the caller, who may well run the same query again
-	quoted := make([]string, len(terms))
+	// one query per term, built without the query-string parser: a term is text to find, whatever
+	// characters it is made of (":", "-", "~" ... are syntax for that parser)
+	perTerm := make([]blevequery.Query, len(terms))
 	for i, term := range terms {
-		quoted[i] = term
 		if strings.Contains(term, " ") {
-			quoted[i] = fmt.Sprintf("\"%s\"", term)
+			perTerm[i] = bleve.NewMatchPhraseQuery(term)
+		} else {
+			perTerm[i] = bleve.NewMatchQuery(term)
 		}
 	}
-
-	query := bleve.NewQueryStringQuery(strings.Join(quoted, " "))
+	query := bleve.NewDisjunctionQuery(perTerm...)
 	// NewSearchRequest asks for the first 10 hits only: ask for as many as there are documents
 	count, err := b.index.DocCount()
 	if err != nil {
